@@ -84,6 +84,11 @@ META = {
   "text": "Pre-states cover every relation between the two caches named by the property; each transfer is cut after every message in turn and the follower restarted, and whatever the follower then claims to hold under the leader's id is read back completely and compared with the leader's history. Exploration + enumeration of the interruption point.",
   "note": "The harness decides that a session has quiesced by watching the follower's right edge / message counter (bounded waits); it does not own goroutine scheduling inside the pair.",
  },
+ "C13": {
+  "technique": "property-based testing (rapid) over interleaved client histories at two sites joined by two live bisync links, against real-executing doubles with an origin-tagged propagation stream; oracle = exactly-once application of client-originated units and zero application of tool-originated ones (differential against ground-truth origin)",
+  "text": "The loop is closed through two stores and their replication streams, with the rewrites a master applies when propagating. Who wrote a stream entry is recorded by the double, so the check never relies on the marker convention it is testing. Exploration level: interleavings come from the Go scheduler and generated pauses.",
+  "note": "Restarts are outside this property (C14). Type conflicts between the sites are excluded by construction.",
+ },
  "C14": {
   "technique": "stateful property-based testing (rapid) over replay histories with injected crashes and stops (request-count fault points, start-up included) against request-logging doubles; oracle = invariants over the target's execution history (committed-prefix resume point, monotone restarts, atomic unit + record, frontier never beyond a gap)",
   "text": "Runs are generated as a list (restart kind, fault, traffic produced so far), so that restart-after-restart without traffic, crashes during start-up recovery and between frontier save and journal deletion are ordinary members of the domain. Cluster targets with unequal node latencies give out-of-order completion across lanes. Exploration level: schedules inside the tool are not owned, fault points are request counts.",
